@@ -54,11 +54,12 @@ type conn struct {
 	inFragQueue  *FragQueue // queue of read redis messages
 	outFragQueue *FragQueue // queue of redis messages to be written
 
-	opened     bool             // connection opened event fired
-	isSlave    bool             // whether redis slave node
-	initStep   int8             // number of steps required for redis connection initialization
-	initStatus InitializeStatus // redis connection initialization status
-	connType   ConnType         // client or server
+	opened          bool             // connection opened event fired
+	closeAfterFlush bool             // client sent QUIT while earlier replies were pending: close after flushing them
+	isSlave         bool             // whether redis slave node
+	initStep        int8             // number of steps required for redis connection initialization
+	initStatus      InitializeStatus // redis connection initialization status
+	connType        ConnType         // client or server
 }
 
 func newTCPConn(fd int, el *eventloop, localAddr, remoteAddr net.Addr, connType ConnType, status InitializeStatus, isSlave bool) (c *conn) {
